@@ -86,3 +86,40 @@ Proof.
 Qed.
 Example client_trace_len : length (vspec [] [] theClient) = 19%nat.
 Proof. vm_compute. reflexivity. Qed.
+
+(* ---- wave 5 ---- *)
+From GL Require Import Stack.Handover Stack.HandoverFacts Stack.CtxTree Stack.CtxTreeFacts.
+
+(* a resumer holding 3 values under a limit of 6 (registry of 4 cells growing by 1 up to 6) and a
+   coroutine with 5 live cells yielding its top 2: boolean + 2 values fit exactly (growth on the way) ... *)
+Definition hoP : registry := mkReg [Some (VInt 1); Some (VInt 2); Some (VInt 3); None] 3 4 1 6.
+Definition hoC : registry := mkReg [Some (VInt 10); Some (VInt 11); Some (VInt 12); Some (VInt 13); Some (VInt 14); None] 5 6 0 0.
+Example hoP_rel : Rr hoP [Some (VInt 1); Some (VInt 2); Some (VInt 3)] 6.
+Proof. constructor; try (vm_compute; reflexivity); try (vm_compute; discriminate); cbn; lia. Qed.
+Example hoC_rel : Rr hoC [Some (VInt 10); Some (VInt 11); Some (VInt 12); Some (VInt 13); Some (VInt 14)] 6.
+Proof. constructor; try (vm_compute; reflexivity); try (vm_compute; discriminate); cbn; lia. Qed.
+Example ho_fits : exists p' c', handover hoP hoC false (Some (VRef 1)) 2 = HoDone p' c' /\
+  live p' = [Some (VInt 1); Some (VInt 2); Some (VInt 3); Some (VRef 1); Some (VInt 13); Some (VInt 14)] /\
+  live c' = [Some (VInt 10); Some (VInt 11); Some (VInt 12)].
+Proof. eexists. eexists. vm_compute. repeat split. Qed.
+(* ... one value more does not: refused, resumer unchanged, the coroutine's values dropped all the same *)
+Example ho_refused : exists c', handover hoP hoC false (Some (VRef 1)) 3 = HoRefused hoP c' /\
+  live c' = [Some (VInt 10); Some (VInt 11)].
+Proof. eexists. vm_compute. repeat split. Qed.
+(* the hypotheses of handover_nocount_torn are met by the same pair with 3 values: 3 + 3 = 6 *)
+Example ho_nocount_torn : handover_gen false hoP hoC false (Some (VRef 1)) 3 = HoTorn.
+Proof.
+  apply (handover_nocount_torn_lemma hoP hoC _ _ 6 6 _ 3 hoP_rel hoC_rel); vm_compute; [split; discriminate|reflexivity].
+Qed.
+
+(* a worker (2) finishes inside its creator (1), which creates another (3) and goes on; 1 finishes
+   while 3 is alive (1's context must wait), then 3 finishes *)
+Definition hX : list xop := [XNew 0; XNew 1; XDie 2; XNew 1; XDie 1; XNew 3; XDie 3; XDie 4].
+Example ctx_dom : sdomrun [] hX = true.
+Proof. vm_compute. reflexivity. Qed.
+Example ctx_obs : xobs [] hX =
+  [[false]; [false; false]; [false; true]; [false; true; false]; [false; true; false];
+   [false; true; false; false]; [false; true; false; false]; [true; true; true; true]].
+Proof. vm_compute. reflexivity. Qed.
+Example ctx_run : exists f, xrun [] hX = Some f /\ live_not_done (map ndead f) (done_flags f) = true.
+Proof. destruct (ctx_live_never_done_lemma hX ctx_dom) as (f & R & _ & L & _). eauto. Qed.
